@@ -147,3 +147,19 @@ check("C17",
       level_text="exhaustive within the depth bound",
       level_note="unsubscribe racing with a burst of events is covered by the scheduler cells")
 CHECKS["C19"]["packages"] = ["l1chan", "l2node"]
+
+check("C16",
+      packages=["l2transport"],
+      technique="explicit-state BFS with replay over graphsync callbacks and transport API calls on the real Transport with a fake graph exchange; ground-truth request->channel ownership kept by the harness",
+      rule="BFS (quick depth 3 over ~130 operations, thorough depth 5 with a third channel, state cap reported) over: open/restart, incoming requests (new, restart, no/other/malformed extension, same id from another peer), processing, incoming/outgoing/sent blocks with on-wire size 0 or >0, response/update extensions (own kind, role-confused, foreign peer, foreign id), completed-response statuses, requestor-cancelled, send/receive errors, requester stream endings, pause/resume/close/cleanup/use-store/shutdown; each applied to the current, an old and an unknown request; oracle: handler calls name exactly the owning channel, none for unknown / extension-less / cleaned-up, on-wire 0 => no accounting, pause/unpause/cancel hit the channel's current request, completion reported once with error iff not full, store registered from UseStore to cleanup, every call returns. distinct = distinct ground-truth states.",
+      design_ref="DESIGN.md 5/C16",
+      level_text="exhaustive within the depth bound",
+      level_note="graphsync itself is replaced by a recording fake here; the real graphsync runs in the end-to-end cells")
+
+check("C20",
+      packages=["l2transport"],
+      technique="exhaustive enumeration of (graphsync callback x message kind x channel situation) on the real manager + real transport with scheduler-visible locks; quiescence-based termination/deadlock oracle",
+      rule="every message-carrying graphsync callback (incoming request, request updated, incoming response, response-with-block extension) x every one of 17 message kinds x sender in {counterparty, stranger} x channel situation in {unknown, received pull open, created pull open, created push requested} on a real manager behind the real transport: the callback has returned at quiescence (after a 24h virtual clock advance at the latest), no goroutine is parked in a library lock afterwards, a later query returns. distinct = distinct outcome classes.",
+      design_ref="DESIGN.md 5/C20",
+      level_text="exhaustive over the stated product; deadlock/termination decided at quiescence with all repo mutexes visible",
+      level_note="data-race freedom is not decidable by a schedule explorer at synchronisation granularity; it is covered by the complementary free-running -race pass (sampling) and flagged as such")
